@@ -58,20 +58,31 @@ func Harness_C05_inflate() {
 		l32[i] = verif_Byte()
 	}
 	body := []byte{0x1f, 0x8b, l32[0], l32[1], l32[2], l32[3]}
+	// any base packet type with the compressed flag: command frames go on to parse the inflated
+	// bytes as their JSON envelope, the others hand them out as payload
+	tsel := verif_Choose(5)
+	jsonBomb := false
+	if tsel != 0 {
+		// the JSON-carrying types are explored with small inflated sizes (there the inflated bytes
+		// get parsed) and with one bomb of 64 MiB whose content, natively, is a valid JSON prefix -
+		// a decoder that streams the inflated text instead of bounding it first is exposed
+		small := l32[0] == 0 && l32[1] == 0 && l32[2] == 0 && l32[3] < 4
+		bomb := l32[0] == 4 && l32[1] == 0 && l32[2] == 0 && l32[3] == 0
+		verif_Assume(small || bomb)
+		if bomb {
+			jsonBomb = true
+			verif_Cover("C05.inf.json_bomb")
+		}
+	}
 	if !verif_Symbolic() {
 		want := int(l32[0])<<24 | int(l32[1])<<16 | int(l32[2])<<8 | int(l32[3])
 		if want > 96<<20 {
 			want = 96 << 20
 		}
 		body = c05RealGzip(want)
-	}
-	// any base packet type with the compressed flag: command frames go on to parse the inflated
-	// bytes as their JSON envelope, the others hand them out as payload
-	tsel := verif_Choose(5)
-	if tsel != 0 {
-		// the JSON-carrying types are explored with small inflated sizes only (the size bound is
-		// the business of the payload type above; here the inflated bytes get parsed)
-		verif_Assume(l32[0] == 0 && l32[1] == 0 && l32[2] == 0 && l32[3] < 4)
+		if jsonBomb {
+			body = c05RealGzipJSON(want)
+		}
 	}
 	typ := 0x40 | byte([]packet.Type{0x22, packet.JsonCommand, packet.CommandResp, packet.Handshake, packet.TunnelOpen}[tsel])
 	hdr := []byte{typ, byte(len(body) >> 24), byte(len(body) >> 16), byte(len(body) >> 8), byte(len(body))}
@@ -82,7 +93,11 @@ func Harness_C05_inflate() {
 	after := c05TotalAlloc()
 	if !verif_Symbolic() {
 		// total bytes allocated while decoding this one packet (sum over all growth steps)
-		verif_Assert("alloc.limit", after-before <= uint64(2*limit))
+		if jsonBomb {
+			verif_Assert("C05.inf.json_bomb_bounded", after-before <= uint64(2*limit))
+		} else {
+			verif_Assert("alloc.limit", after-before <= uint64(2*limit))
+		}
 	}
 	if err == nil {
 		verif_Assert("C05.inf.nonnil", pkt != nil)
@@ -117,6 +132,26 @@ func c05RealGzip(n int) []byte {
 	w2 := gzip.NewWriter(&b)
 	w2.Write([]byte{0})
 	w2.Close()
+	return b.Bytes()
+}
+
+// c05RealGzipJSON: a gzip member inflating to n bytes that are a well-formed JSON command
+// envelope with one enormous string.
+func c05RealGzipJSON(n int) []byte {
+	var b bytes.Buffer
+	w := gzip.NewWriter(&b)
+	head, tail := []byte(`{"CommandType":10,"CommandId":"c","CommandBody":"`), []byte(`"}`)
+	w.Write(head)
+	chunk := bytes.Repeat([]byte{'a'}, 1<<20)
+	for n -= len(head) + len(tail); n > 0; n -= len(chunk) {
+		k := len(chunk)
+		if n < k {
+			k = n
+		}
+		w.Write(chunk[:k])
+	}
+	w.Write(tail)
+	w.Close()
 	return b.Bytes()
 }
 
